@@ -61,6 +61,8 @@ def run(tier, pid="C06"):
         tev += len(events)
         tbad += len(bad)
         for i, ev in bad:
+            if ev.get("_reason") == "recorder-civil-fields":
+                raise core.ToolError("the recorder's civil fields do not satisfy Calendar!ValidCivil: %r" % ev["st"])
             v.add([dict(key="C06:panic" if ev["panic"] else "C06:render", line=i, trace=path, schema=ev["sch"],
                         vars=ev["st"], observed=dict(semver=core.cp_text(ev["semver"]), pep440=core.cp_text(ev["pep440"])))])
     core.log("  validated %d recorded renderings, %d rejected" % (tev, tbad))
